@@ -17,7 +17,7 @@ from litex.soc.integration.builder import Builder
 from litex.soc.integration import export
 from litex.soc.integration.common import get_mem_data
 from litex.soc.interconnect import wishbone
-from litex.soc.interconnect.csr import CSRStorage, CSRStatus, AutoCSR
+from litex.soc.interconnect.csr import CSRField, CSRStorage, CSRStatus, AutoCSR
 from litex.soc.interconnect.csr_eventmanager import EventManager, EventSourcePulse
 from litex.soc.cores import cpu as cpu_mod
 
@@ -37,10 +37,12 @@ RULE = ("one case = one CPU-less SoCCore configuration (bus standard wishbone/ax
 ASSUMPTIONS = ["migen tracer shim (names only)", "the bus master is a 32-bit Wishbone port (adapters inserted by SoCBusHandler.add_adapter are part of the path)",
                "csr_read_simple/csr_write_simple are 32-bit accesses at the given address (hw/common.h)", "ctrl_reset is not written (it resets the SoC)"]
 FLOORS = {"quick": {"registers_replayed": 600, "accessor_reads": 600, "accessor_writes": 300, "socs_built": 40, "mem_region_words_checked": 200,
-                    "cross_format_entries_compared": 2000, "image_bytes_checked": 12000, "registers_wider_than_64_bits": 40, "interrupts_raised_and_located": 40},
+                    "cross_format_entries_compared": 2000, "image_bytes_checked": 12000, "registers_wider_than_64_bits": 40, "interrupts_raised_and_located": 40,
+                    "fields_located": 250, "field_accessor_writes_replayed": 120},
           "thorough": {"registers_replayed": 9000, "accessor_reads": 9000, "accessor_writes": 4500, "socs_built": 600,
                        "mem_region_words_checked": 3000, "cross_format_entries_compared": 30000, "image_bytes_checked": 300000,
-                       "registers_wider_than_64_bits": 600, "interrupts_raised_and_located": 500}}
+                       "registers_wider_than_64_bits": 600, "interrupts_raised_and_located": 500,
+                       "fields_located": 4000, "field_accessor_writes_replayed": 2000}}
 SHARD_TIMEOUT = {"quick": 1500, "thorough": 3400}
 N_SAMPLES = 2
 
@@ -113,6 +115,18 @@ def gen_periph_specs(rng, nper, with_irq=False):
                 size = rng.choice([65, 96, 128, rng.randint(65, 160)])
             regs.append({"kind": kind, "name": "r%d" % i, "size": size, "atomic": kind == "storage" and rng.random() < 0.3,
                          "reset": rng.getrandbits(size)})
+            if kind == "storage" and rng.random() < 0.3:
+                # a register made of fields (with gaps between them): the published field offsets / sizes / accessors are judged
+                fields, off = [], rng.choice([0, 0, 1, 3])
+                for fi in range(rng.randint(1, 4)):
+                    fs = rng.choice([1, 1, 2, 3, 5, 8])
+                    if off + fs > 32:
+                        break
+                    fields.append({"name": "f%d" % fi, "offset": off, "size": fs, "reset": rng.getrandbits(fs)})
+                    off += fs + rng.choice([0, 0, 1, 4])
+                if fields:
+                    regs[-1].update({"fields": fields, "size": fields[-1]["offset"] + fields[-1]["size"], "atomic": False})
+                    regs[-1]["reset"] = sum(f["reset"] << f["offset"] for f in fields)
         specs.append({"name": "per%d" % pi, "regs": regs, "mem": ({"width": 32, "depth": rng.choice([8, 32])} if rng.random() < 0.35 else None)})
         if with_irq and rng.random() < 0.75:
             # an EventManager with 1..3 pulse sources; interrupt number fixed by the designer (30%) or allocated
@@ -138,7 +152,10 @@ def build_soc(case, rng, specs, init_files):
             pass
         p = Per()
         for r in sp["regs"]:
-            if r["kind"] == "storage":
+            if r["kind"] == "storage" and r.get("fields"):
+                o = CSRStorage(fields=[CSRField(f["name"], size=f["size"], offset=f["offset"], reset=f["reset"]) for f in r["fields"]],
+                               name=r["name"])
+            elif r["kind"] == "storage":
                 o = CSRStorage(r["size"], reset=r["reset"], atomic_write=r["atomic"], name=r["name"])
             else:
                 o = CSRStatus(r["size"], reset=r["reset"], name=r["name"])
@@ -214,7 +231,18 @@ def parse_header(text):
                 seq.append((int(a.group(1) or 0), base + int(a.group(2), 16)))
         if seq:
             writes[m.group(1)] = seq
-    return {"defines": defs, "read": reads, "write": writes, "ctype": ctype, "csr_base": base}
+    fdefs = {}
+    for m in re.finditer(r"#define CSR_(\w+)_(OFFSET|SIZE) (\d+)\n", text):
+        if not m.group(1).endswith(("_ADDR", "_BASE")):
+            fdefs.setdefault(m.group(1).lower(), {})[m.group(2)] = int(m.group(3))
+    facc = {}
+    for m in re.finditer(r"static inline uint32_t (\w+)_replace\(uint32_t oldword, uint32_t plain_value\) \{\n\tuint32_t mask = 0x([0-9a-f]+);\n"
+                         r"\treturn \(oldword & \(~\(mask << (\d+)\)\)\) \| \(\(mask & plain_value\) << (\d+)\);", text):
+        facc[m.group(1)] = {"mask": int(m.group(2), 16), "clear_shift": int(m.group(3)), "set_shift": int(m.group(4))}
+    for m in re.finditer(r"static inline uint32_t (\w+)_extract\(uint32_t oldword\) \{\n\tuint32_t mask = 0x([0-9a-f]+);\n"
+                         r"\treturn \(\(oldword >> (\d+)\) & mask\);", text):
+        facc.setdefault(m.group(1), {}).update({"xmask": int(m.group(2), 16), "xshift": int(m.group(3))})
+    return {"defines": defs, "read": reads, "write": writes, "ctype": ctype, "csr_base": base, "field_defines": fdefs, "field_accessors": facc}
 
 
 def export_all(soc, use_builder, tmpdir):
@@ -238,7 +266,8 @@ def export_all(soc, use_builder, tmpdir):
         out["json"] = export.get_csr_json(soc.csr_regions, soc.constants, soc.mem_regions)
         out["csv"] = export.get_csr_csv(soc.csr_regions, soc.constants, soc.mem_regions)
         out["svd"] = export.get_csr_svd(soc)
-        out["header"] = export.get_csr_header(soc.csr_regions, soc.constants, soc.mem_regions["csr"].origin)
+        out["header"] = export.get_csr_header(soc.csr_regions, soc.constants, soc.mem_regions["csr"].origin,
+                                              with_fields_access_functions=True)
         out["soc_header"] = export.get_soc_header(soc.constants)
         out["mem_header"] = export.get_mem_header(soc.mem_regions)
     return out
@@ -377,6 +406,43 @@ def run_soc(case):
                 if others:
                     sim_errs.append({"kind": "accessor-write-changed-another-register", "register": name, "changed": others[:3]})
                 expect = after[name]
+                for f in r.get("fields", []):
+                    fsig = getattr(o.fields, f["name"])
+                    fd = hd["field_defines"].get(name + "_" + f["name"])
+                    st["fields"] = st.get("fields", 0) + 1
+                    if not fd or "OFFSET" not in fd or "SIZE" not in fd:
+                        sim_errs.append({"kind": "field-not-published", "register": name, "field": f["name"]})
+                        continue
+                    hw = yield ("call", lambda s, fsig=fsig: umask(fsig, s.bench.sim.evaluator.signal_values.get(fsig, fsig.reset.value)))
+                    if hw != (after[name] >> fd["OFFSET"]) & ((1 << fd["SIZE"]) - 1) or len(fsig) != fd["SIZE"]:
+                        sim_errs.append({"kind": "published-field-position-differs-from-hardware", "register": name, "field": f["name"],
+                                         "published": fd, "register_holds": hex(after[name]), "hardware_field_holds": hex(hw),
+                                         "hardware_field_bits": len(fsig)})
+                    fa = hd["field_accessors"].get(name + "_" + f["name"])
+                    if fa and "mask" in fa and name in hd["read"] and name in hd["write"]:
+                        # <reg>_<field>_write(v) as generated: read the register, replace the field, write the register back
+                        v = rng.getrandbits(f["size"] + 2)
+                        old = 0
+                        for (addr, shift) in hd["read"][name]:
+                            res = yield ("read", addr >> 2)
+                            old = ((old << shift) | res["dat_r"]) & 0xffffffff
+                        new = ((old & ~(fa["mask"] << fa["clear_shift"])) | ((fa["mask"] & v) << fa["set_shift"])) & 0xffffffff
+                        for (shift, addr) in hd["write"][name]:
+                            yield ("write", addr >> 2, (new >> shift) & 0xffffffff)
+                        yield ("wait", 4)
+                        hw_all = yield ("call", lambda s, o=o, r=r: {g["name"]: s.bench.sim.evaluator.signal_values.get(
+                            getattr(o.fields, g["name"]), getattr(o.fields, g["name"]).reset.value) for g in r["fields"]})
+                        st["field_writes"] = st.get("field_writes", 0) + 1
+                        exp_all = {g["name"]: (old >> g["offset"]) & ((1 << g["size"]) - 1) for g in r["fields"]}
+                        exp_all[f["name"]] = v & ((1 << f["size"]) - 1)
+                        if hw_all != exp_all:
+                            sim_errs.append({"kind": "field-accessor-write-sets-other-bits-than-the-field", "register": name, "field": f["name"],
+                                             "accessor": fa, "written": v, "fields_now": hw_all, "expected": exp_all})
+                        xm = (new >> fa.get("xshift", fa["set_shift"])) & fa.get("xmask", fa["mask"])
+                        if xm != v & ((1 << f["size"]) - 1):
+                            sim_errs.append({"kind": "field-accessor-extract-differs-from-field", "register": name, "field": f["name"],
+                                             "accessor": fa, "extracted": xm})
+                        expect = new & mask
             elif r["kind"] == "status":
                 expect = rng.getrandbits(size)
                 yield ("call", lambda s, o=o, e=expect: s.forced.__setitem__(o.status, e))
@@ -585,6 +651,8 @@ def run_shard(shard):
         col.ev("registers_replayed", st["regs"])
         col.ev("accessor_reads", st["reads"])
         col.ev("registers_wider_than_64_bits", st.get("wide", 0))
+        col.ev("fields_located", st.get("fields", 0))
+        col.ev("field_accessor_writes_replayed", st.get("field_writes", 0))
         col.ev("interrupts_raised_and_located", st.get("irqs", 0))
         col.ev("accessor_writes", st["writes"])
         col.ev("mem_region_words_checked", st["memw"])
